@@ -1,4 +1,5 @@
 import Ntrip.Proofs.MsmRoundTrip
+import Ntrip.Guards.Msm
 /-!
 # C04 — MSM4/MSM7 messages decode to exactly the encoded header and cell data
 
@@ -87,5 +88,8 @@ example : MsmWF .msm7 sample := by
 example : (msmView sample).hdr.sats = [1, 3] ∧ (msmView sample).hdr.sigs = [2, 3] ∧
     (msmView sample).sigs.flatten.map (fun c => (c.satId, c.sigId, c.vals.headD 0)) =
       [(1, 2, -524288), (1, 3, 7), (3, 3, 0)] := by decide
+
+/-- Tie T1: guards and loop headers of the modelled code, regenerated from the source. -/
+theorem tie_guards_msm : type_of% Ntrip.Guards.msm := Ntrip.Guards.msm
 
 end Ntrip.C04
